@@ -86,8 +86,8 @@ SPEC = dict(
     level_note="partial: the remaining constructors of the property (hyperbolic parity rewrites, inverse lookups beyond the "
                "proved rows, atan2, gamma relatives, zeta, erf, lambertw, beta, polygamma, max/min, kronecker_delta, "
                "levi_civita, primepi, primorial, conjugate, floating arguments) are covered by the correspondence (where "
-               "modelled) and by the numeric/exact oracle only.  Model is the code as patched by docs/patches/C08_A, F, G "
-               "(gamma_multiple_2 overflow, floor of exact Complex, sign of Complex).",
+               "modelled) and by the numeric/exact oracle only.  Model is the code as patched by docs/patches/C08_A, F, G, H "
+               "(gamma_multiple_2 overflow, floor of exact Complex, sign of Complex, atan2(0, x)).",
     technique="linear-form view of the stored Add/Mul trees; TrigLaws structure (period, parity, quarter turn, half turn) "
               "derived from 8 laws of (sin, cos) and instantiated with Mathlib at R and C; induction on fuel for the "
               "sin<->cos / tan<->cot / csc<->sec recursion; exact field Q(sqrt2, sqrt3) with a proven-sound evaluator for "
